@@ -35,7 +35,7 @@ pub fn member(pos: usize, m: usize, d: usize, tag: &str) -> Member {
     };
     let ctx = contexts()[pos % 6];
     let built = build_cached::<F>(&cfg, &wit).honest();
-    let proof = lib_prove(&built, &ctx, &mut HRng::chacha(100 + pos as u64)).honest();
+    let proof = lib_prove_honest(&built, &ctx, &mut HRng::chacha(100 + pos as u64));
     let mut rp = ref_proof_of(&proof).unwrap();
     let marker = fg::basis(&format!("weight-marker:{}:{}", tag, pos));
     let marker_id = *marker.0.keys().next().unwrap();
@@ -254,7 +254,7 @@ pub fn plain_member(pos: usize, m: usize, d: usize) -> Member {
     };
     let ctx = contexts()[pos % 6];
     let built = build_cached::<F>(&cfg, &wit).honest();
-    let proof = lib_prove(&built, &ctx, &mut HRng::chacha(300 + pos as u64)).honest();
+    let proof = lib_prove_honest(&built, &ctx, &mut HRng::chacha(300 + pos as u64));
     Member {
         st: built.statement.clone(),
         rp: ref_proof_of(&proof).unwrap(),
@@ -336,6 +336,66 @@ fn adaptive_case(d: usize, size: usize, i: usize, j: usize, k: usize, variant: &
     })
 }
 
+/// Environment deviations on the verifier's weight generator: a window of 1 or 2 consecutive outputs is the sample that
+/// reduces to zero. Every weight is still nonzero, the weights still differ from one another, and each is a value the
+/// generator handed out (never a constant a submitter could know in advance).
+fn zero_weight_draw_case(d: usize, size: usize, mode: VerifyAction) -> Box<dyn Case> {
+    case(format!("d={}/size={}/zero-rng-outputs/{}", d, size, mode_name(mode)), move |_v| {
+        fg::clear_intern();
+        let mut res = CaseResult::new("explored");
+        let batch: Vec<Member> = (0..size).map(|p| member(p, 1, d, "z")).collect();
+        let sts: Vec<RangeStatement<F>> = batch.iter().map(|m| m.st.clone()).collect();
+        let run = |dev: Option<(usize, usize)>| {
+            let proofs: Vec<_> = batch.iter().map(|m| F::from_bytes(&refbp::ref_encode(&m.rp)).expect("decodes")).collect();
+            let mut ts: Vec<Transcript> = batch.iter().map(|m| m.ctx.transcript()).collect();
+            merlin::observe::zero_rng_fills(dev);
+            let obs = verify_observed(&sts, &proofs, &mut ts, mode);
+            merlin::observe::zero_rng_fills(None);
+            let residual = obs.residuals.iter().rev().find(|r| batch.iter().any(|m| r.coeff(m.marker) != Scalar::ZERO)).cloned();
+            let weights: Option<Vec<Scalar>> = residual.as_ref().map(|r| batch.iter().map(|m| r.coeff(m.marker)).collect());
+            let fills = obs.trace.iter().filter(|e| matches!(e.op, merlin::observe::Op::RngFill { .. })).count();
+            (weights, trace_rng_scalars(&obs.trace), fills)
+        };
+        let (base_w, _, base_fills) = run(None);
+        res.executions += 1;
+        if base_w.is_none() {
+            res.outcome = "no-compared-element(skipped)".into();
+            return res;
+        }
+        for window in [1usize, 2] {
+            // every transcript-RNG output of the call is a deviation point: the per-proof binding words and the weights
+            for at in 0..base_fills {
+                res.transitions += 1;
+                res.executions += 1;
+                let (w, draws, _) = run(Some((at, window)));
+                let sub = format!("at={},len={}", at, window);
+                let w = match w {
+                    Some(w) => w,
+                    None => {
+                        res.violate(sub, "no element was compared when the weight generator returned a zero sample");
+                        continue;
+                    },
+                };
+                *res.outcome_counter("zero-output-deviations") += 1;
+                let handed: std::collections::BTreeSet<[u8; 32]> = draws.iter().map(|x| x.to_bytes()).collect();
+                for (i, wi) in w.iter().enumerate() {
+                    res.validated += 1;
+                    if *wi == Scalar::ZERO {
+                        res.violate(format!("{}/weight[{}]", sub, i), "batch weight is zero after a zero sample");
+                    } else if !handed.contains(&wi.to_bytes()) && !handed.contains(&(-wi).to_bytes()) {
+                        // (the marker sits on B, whose coefficient in the compared element is the weight up to sign)
+                        res.violate(format!("{}/weight[{}]", sub, i), "batch weight is not a value the generator handed out (a constant)");
+                    }
+                    if w[..i].contains(wi) {
+                        res.violate(format!("{}/weight[{}]", sub, i), "two members share a batch weight after a zero sample");
+                    }
+                }
+            }
+        }
+        res
+    })
+}
+
 fn batch_keep_shift(_d: &mut Scalar) {}
 
 pub fn run(rep: &mut Report) {
@@ -346,7 +406,8 @@ pub fn run(rep: &mut Report) {
                 cancellation histories of three runs for every ordered pair and blinding coordinate k, on otherwise valid members: \
                 runs A and B read each member's factor from a single shifted response, run C submits offsets that would cancel if \
                 those factors were used again (plain, identical proofs, reversed order; both modes) and must be rejected with a \
-                nonzero G_k coordinate"
+                nonzero G_k coordinate; (4) every window of 1 or 2 consecutive outputs of the weight generator replaced by the zero sample: weights \
+                stay nonzero, distinct, and are values the generator handed out"
         .into();
     rep.assume("weights are observed over the free-module group; the weight derivation does not depend on the group backend");
     let thorough = rep.tier.thorough();
@@ -375,7 +436,15 @@ pub fn run(rep: &mut Report) {
             }
         }
     }
+    for d in [1usize, 3] {
+        for size in [2usize, 3] {
+            for mode in [VerifyAction::VerifyOnly, VerifyAction::RecoverAndVerify] {
+                cases.push(zero_weight_draw_case(d, size, mode));
+            }
+        }
+    }
     rep.explore("C08", cases);
+    rep.expect_sub_outcome("zero-output-deviations");
     rep.expect_outcome("explored");
     rep.expect_sub_outcome("ratio-comparisons");
     rep.expect_sub_outcome("adaptive-rejected");
